@@ -1,5 +1,6 @@
 import Driver.Proto
 import PolyVerif.Model.GraphIO
+import PolyVerif.Model.GraphSession
 import PolyVerif.Model.Payload
 
 /-!
@@ -228,25 +229,32 @@ def pSchema : P (Schema V) := do
 def errTok : Err → String
   | .panic => "panic" | .err => "err" | .fuel => "fuel"
 
-/-- run a history, collecting the status of every op -/
-def runStat (E : Env V V) (g : G) : List (Op V) → G × List String
-  | [] => (g, [])
-  | op :: ops =>
-    match step E g op with
-    | .ok g' => let (gf, st) := runStat E g' ops; (gf, "ok" :: st)
-    | .error e => let (gf, st) := runStat E g ops; (gf, errTok e :: st)
+/-- an event of a session: `L <file dump>` = load that saved file into the SAME application, else an editing op -/
+def pEv : P (Ev V) := do
+  let s ← get
+  match s with
+  | "L" :: r => do set r; let f ← pSchema; pure (.load f)
+  | _ => do let o ← pOp; pure (.edit o)
 
-/-- header, type table, start graph (`-` = the empty graph of a new application, else the dump of the graph the
-    application defines in code), history -/
-def pCase : P (Env V V × G × List (Op V)) := do
+/-- run a session, collecting the status of every event -/
+def runStat (E : Env V V) (g : G) : List (Ev V) → G × List String
+  | [] => (g, [])
+  | ev :: evs =>
+    match evStep E g ev with
+    | .ok g' => let (gf, st) := runStat E g' evs; (gf, "ok" :: st)
+    | .error e => let (gf, st) := runStat E g evs; (gf, errTok e :: st)
+
+/-- header (of the application when the session starts), type table, start graph (`-` = the empty graph of a new
+    application, else the dump of the graph the application defines in code), session -/
+def pCase : P (Env V V × G × List (Ev V)) := do
   let hdr ← pHdr
   let tys ← pCounted pTy
   let rest ← get
   let g0 ← (match rest with
     | "-" :: r => do set r; pure (Graph.init hdr)
     | _ => pGraph : P G)
-  let ops ← pCounted pOp
-  pure (mkEnv tys, g0, ops)
+  let evs ← pCounted pEv
+  pure (mkEnv tys, g0, evs)
 
 def fixDesc (s : Schema V) : Schema V :=
   -- a value parameter's description decodes from JSON "" as the empty string token
@@ -339,10 +347,10 @@ def handle (op : String) (args : List String) : Option String :=
     pure ((if st.isEmpty then "-" else ",".intercalate st) ++ " " ++ join (graphToks E (normEmpty gf)))
   | "c12.save" => do
     let ((E, g, ops), _) ← pCase.run args
-    pure (join (schemaToks (normEmptyS (encode E depLess (run E g ops)))))
+    pure (join (schemaToks (normEmptyS (encode E depLess (runEv E g ops)))))
   | "c12.reload" => do
     let ((E, g, ops), _) ← pCase.run args
-    match decode E Hdr.empty (encode E depLess (run E g ops)) with
+    match decode E Hdr.empty (encode E depLess (runEv E g ops)) with
     | .ok g' => pure (join (graphToks E (normEmpty g')))
     | .error e => pure (errTok e)
   | "c12.file" => do
@@ -353,6 +361,11 @@ def handle (op : String) (args : List String) : Option String :=
   | "c12.holds.same_graph" => do
     let ((E, g1, g2), _) ← (do let tys ← pCounted pTy; let a ← pGraph; let b ← pGraph; pure (mkEnv tys, a, b) : P _).run args
     pure (boolStr (Graph.same E metaEq g1 g2 && Graph.same E metaEq g2 g1))
+  | "c12.holds.id_table" => do
+    -- the node id table read both ways: for every id the saved file would bind, `NodeId(Node(id))` is that id
+    -- (ids the id-based editing operations resolve are the nodes that get saved) - also right after a load
+    let (l, _) ← (pCounted (do let a ← pRaw; let b ← pRaw; pure (a, b)) : P _).run args
+    pure (boolStr (l.all fun (a, b) => a == b && a != "s"))
   | "c12.holds.bytes_identical" =>
     match args with
     | [a, b] => some (boolStr (a == b && a != "spanic" && a != "s70616e6963"))
